@@ -20,6 +20,9 @@ R07.f  per-machine tables: an entry stored under machine ``m`` inside
        test on ``m``) - start and end times are per machine, so a value
        hoisted out of the machine loop fills the table with another
        machine's time.
+R07.h  no function of these modules modifies the object of a mutable default
+       argument (directly, through a local alias, or with ``+=``): the result
+       of a call must not depend on earlier calls.
 """
 
 from __future__ import annotations
@@ -45,6 +48,7 @@ MANIFEST = {
         "are indexed by; filter code never consults the dispatcher's own ready/available-operation queries. "
         "Not decided: non-emptiness and the exactness of each documented "
         "criterion, which depend on start-time values."
+        " Also decided: no function of these modules accumulates into a mutable default argument."
     ),
     "note": (
         "User-supplied filters are outside the quantifier. The sub-list proof "
@@ -93,11 +97,54 @@ def registry(ctx, factory: FuncInfo, enum_name: str):
                 isinstance(k, ast.Attribute) and isinstance(k.value, ast.Name) and k.value.id == enum_name for k in n.value.keys
             ):
                 return n.value, {k.attr: v for k, v in zip(n.value.keys, n.value.values)}
+    # a match statement / if-elif chain on the enum members that returns the entry
+    def member(e):
+        if isinstance(e, ast.Attribute) and isinstance(e.value, ast.Name) and e.value.id == enum_name:
+            return e.attr
+        return None
+
+    def single_return(body):
+        body = [x for x in body if not (isinstance(x, ast.Expr) and isinstance(x.value, ast.Constant))]
+        if len(body) == 1 and isinstance(body[0], ast.Return) and body[0].value is not None:
+            return body[0].value
+        return None
+
+    for n in own_nodes(factory.node):
+        table = {}
+        if isinstance(n, ast.Match):
+            for case in n.cases:
+                pats = case.pattern.patterns if isinstance(case.pattern, ast.MatchOr) else [case.pattern]
+                ms = [member(p.value) if isinstance(p, ast.MatchValue) else None for p in pats]
+                v = single_return(case.body)
+                if all(ms) and v is not None and case.guard is None:
+                    for m in ms:
+                        table[m] = v
+        elif isinstance(n, ast.If):
+            cur = n
+            while isinstance(cur, ast.If):
+                t = cur.test
+                m = None
+                if isinstance(t, ast.Compare) and len(t.ops) == 1 and isinstance(t.ops[0], (ast.Eq, ast.Is)):
+                    m = member(t.comparators[0]) or member(t.left)
+                v = single_return(cur.body)
+                if m is None or v is None:
+                    break
+                table[m] = v
+                cur = cur.orelse[0] if len(cur.orelse) == 1 else None
+        if len(table) >= 2:
+            d = ast.Dict(
+                keys=[ast.Attribute(value=ast.Name(id=enum_name, ctx=ast.Load()), attr=k, ctx=ast.Load()) for k in table],
+                values=list(table.values()))
+            ast.copy_location(d, n)
+            return d, table
     raise AnalysisError(f"{factory.qualname}: registry keyed by {enum_name} not found")
 
 
 def run(ctx):
     chk = ctx.chk
+    from .common import check_mutable_defaults
+
+    check_mutable_defaults(ctx, "R07.h", ("job_shop_lib.dispatching._ready_operation_filters", "job_shop_lib.dispatching._factories"), "the filter")
     repo = ctx.repo
     chk.rule("R07.a", "every registered filter returns an order-preserving duplicate-free selection of its `operations` argument on every path")
     chk.rule("R07.b", "the composite filter folds: each filter is applied to the previous output, none skipped, last output returned")
@@ -275,6 +322,17 @@ def run(ctx):
     rets = [n for n in own_nodes(inner.node) if isinstance(n, ast.Return) and n.value is not None]
     if len(rets) == 1:
         rv = ctx.norm.xexpr(inner, rets[0].value)
+        if isinstance(rv, ast.Call) and ast.unparse(rv.func).split(".")[-1] == "reduce" and len(rv.args) == 3 and isinstance(rv.args[0], ast.Name):
+            # the step written as a nested def with a single return
+            for d in ast.walk(inner.node):
+                if isinstance(d, ast.FunctionDef) and d is not inner.node and d.name == rv.args[0].id:
+                    body = [x for x in d.body if not (isinstance(x, ast.Expr) and isinstance(x.value, ast.Constant))]
+                    a = d.args
+                    if len(body) == 1 and isinstance(body[0], ast.Return) and body[0].value is not None and len(a.args) == 2 and not (a.vararg or a.kwarg or a.kwonlyargs or a.defaults):
+                        lam = ast.Lambda(args=ast.arguments(posonlyargs=[], args=list(a.args), kwonlyargs=[], kw_defaults=[], defaults=[]), body=body[0].value)
+                        rv = ast.Call(func=rv.func, args=[ast.copy_location(lam, d)] + list(rv.args[1:]), keywords=[])
+                        ast.copy_location(rv, rets[0].value)
+                        rets = [r for r in rets]  # the nested def's own return is not the composite's
         if (
             isinstance(rv, ast.Call) and ast.unparse(rv.func).split(".")[-1] == "reduce" and len(rv.args) == 3
             and isinstance(rv.args[0], ast.Lambda) and len(rv.args[0].args.args) == 2
